@@ -101,17 +101,20 @@ package config
 //@   site mergeConfigs@1: $1 == *parentPkgConfig.Config && $2 == subPkgConfig.Config
 //@   ensures#done err == nil ==> (forall k string :: (k in c.Packages) ==> pkgDone(c.Packages[k]))
 //@   ensures#keys forall k string :: old(k in c.Packages) ==> (k in c.Packages)
+//@   ensures#tree Ghost() && Shape() && c.Config == old(c.Config) && c.Packages == old(c.Packages)
 //@   loop 0: invariant Ghost() && Shape() && c.Config == old(c.Config) && c.Packages == old(c.Packages)
 //@   loop 0: invariant#keys forall k string :: (k in c.Packages) <==> old(k in c.Packages)
 //@   loop 0: invariant#mono forall d *Config :: old(allPtrFieldsSet(d)) ==> allPtrFieldsSet(d)
 //@   loop 0: invariant#done forall k string :: (k in c.Packages) && $visited[k] ==> pkgDone(c.Packages[k])
 //@   loop 0: invariant#rec forall j int :: 0 <= j && j < len(recursivePackages) ==> (recursivePackages[j] in c.Packages) && $visited[recursivePackages[j]]
-//@   loop 1: invariant Ghost() && Shape() && c.Packages == old(c.Packages)
+//@   loop 1: invariant Ghost() && Shape() && c.Packages == old(c.Packages) && c.Config == old(c.Config)
 //@   loop 1: invariant#keys forall k string :: old(k in c.Packages) ==> (k in c.Packages)
 //@   loop 1: invariant#done forall k string :: (k in c.Packages) ==> pkgDone(c.Packages[k])
-//@   loop 2: invariant Ghost() && Shape() && c.Packages == old(c.Packages) && pkgDone(parentPkgConfig) && (recursivePackageName in c.Packages) && c.Packages[recursivePackageName] == parentPkgConfig
+//@   loop 1: invariant#mono forall d *Config :: old(allPtrFieldsSet(d)) ==> allPtrFieldsSet(d)
+//@   loop 2: invariant Ghost() && Shape() && c.Packages == old(c.Packages) && c.Config == old(c.Config) && pkgDone(parentPkgConfig) && (recursivePackageName in c.Packages) && c.Packages[recursivePackageName] == parentPkgConfig
 //@   loop 2: invariant#keys forall k string :: old(k in c.Packages) ==> (k in c.Packages)
 //@   loop 2: invariant#done forall k string :: (k in c.Packages) ==> pkgDone(c.Packages[k])
+//@   loop 2: invariant#mono forall d *Config :: old(allPtrFieldsSet(d)) ==> allPtrFieldsSet(d)
 //@   loop 2: invariant#added[C07] forall j int :: 0 <= j && j < $i && !excluded(parentPkgConfig.Config, subpkgs[j]) ==> (subpkgs[j] in c.Packages)
 
 //@ func NewPackageConfig props=C07,C08
@@ -212,6 +215,7 @@ package config
 //@   requires srcPkg != nil
 //@   requires c.Dir != c.FileName && c.Dir != c.PkgName && c.Dir != c.StructName && c.Dir != c.TemplateSchema && c.FileName != c.PkgName && c.FileName != c.StructName
 //@         && c.FileName != c.TemplateSchema && c.PkgName != c.StructName && c.PkgName != c.TemplateSchema && c.StructName != c.TemplateSchema
+//@   assigns *c.Dir, *c.FileName, *c.PkgName, *c.StructName, *c.TemplateSchema, fresh
 //@   site#data Execute: $1 == box(data)
 //@   site#mock Execute: data.Mock == (iface == nil ? "" : (ast.IsExported(iface.Name) ? "Mock" : "mock"))
 //@   site#iface Execute: data.InterfaceName == (iface == nil ? "" : iface.Name) && data.InterfaceFile == (iface == nil ? "" : iface.FileName)
